@@ -245,6 +245,9 @@ def run(tier):
     part_threaded = c20t.run_part(report, tier)
     tl = [0.0, c20t.R / 2, 0.95 * c20t.R, None]
     tpatterns = list(itertools.product(tl, repeat=3 if tier == "quick" else 4))
+    # the link comes up only after k refused attempts (each followed by the retry pause): the watchdog's clocks
+    # start with the link, not with the dialling
+    tpatterns += [("refused", k) + p for k in (1, 2, 3) for p in [(), (0.0, 0.0, 0.0), (c20t.R / 2, None), (0.95 * c20t.R, 0.95 * c20t.R, 0.95 * c20t.R)]]
     v3, s3, m3 = e5.pmap(c20t.check_watchdog_threaded, tpatterns)
     report.add_all(v3)
     part_threaded["watchdog"] = dict(s3)
